@@ -36,7 +36,7 @@ BOUNDS = {"quick": "all real affines with voxel sizes from {0.375, 0.5, 1, 2, 3,
                    "among fixed entries covering integers, fractions, exponent notation of both signs",
           "thorough": "more voxel-size triples; compact form |D| < 10^11"}
 OUTSIDE = ["compact URL form for doubles that are not the nearest double of a decimal with at most 6 significant digits "
-           "(their shortest repr is produced by C code; the model is validated against CPython by harness 'reprmodel')", "nibabel header parsing", "RGB structured dtypes",
+           "(their shortest repr is produced by C code; the model is validated against CPython by harness 'reprmodel')", "nibabel header parsing",
            "float rounding in the matrix arithmetic"]
 
 
@@ -46,7 +46,8 @@ def configs(tier, seed):
     for i, vs in enumerate(vs_list):
         out.append(dict(harness="transform", vs=list(vs), cost=1, timeout_ms=60000))
     cases = [((3, 2, 4), "uint8", None), ((2, 3, 1, 2), "uint16", None), ((2, 2, 2), "int16", None), ((1, 5, 2), "float32", None),
-             ((2, 2, 2), "float64", None), ((2, 1, 2), "uint8", (2.0, 1.0)), ((2, 2, 2), "uint16", (1.0, -1024.0)), ((2, 2, 1), "int16", (0.5, 0.0)), ((3, 3, 3, 3), "uint64", None), ((2, 2, 2), "int8", None)]
+             ((2, 2, 2), "float64", None), ((2, 1, 2), "uint8", (2.0, 1.0)), ((2, 2, 2), "uint16", (1.0, -1024.0)), ((2, 2, 1), "int16", (0.5, 0.0)), ((3, 3, 3, 3), "uint64", None), ((2, 2, 2), "int8", None),
+             ((2, 3, 2), "rgb", None)]
     for shape, dt, sc in cases:
         for sharding in (None, "1,2,3"):
             out.append(dict(harness="info", shape=list(shape), dtype=dt, scaling=sc, sharding=sharding, gzip=bool(sharding and len(shape) == 3), cost=1))
@@ -281,12 +282,18 @@ def H_info(ctx, cfg):
     vs = (1.0, 2.0, 0.5)
     W = _world(vs)
     shape, dt = cfg["shape"], cfg["dtype"]
-    raw = SArray.fresh(tuple(shape), dt, "v", exact_int=real_np.dtype(dt).kind in "ui")
+    rgb = dt == "rgb"
+    if rgb:
+        from ..sarray import SStructArray
+        raw = SStructArray({n: SArray.fresh(tuple(shape), "uint8", n.lower()) for n in "RGB"}, order="F")
+        dt = "uint8"
+    else:
+        raw = SArray.fresh(tuple(shape), dt, "v", exact_int=real_np.dtype(dt).kind in "ui")
     affine = real_np.diag([vs[0], vs[1], vs[2], 1.0])
     sl, it = cfg["scaling"] or (None, None)
     img = V.FakeImage(raw, affine=affine, slope=sl, inter=it)
     options = {"sharding": cfg["sharding"], "gzip": cfg["gzip"]} if cfg["sharding"] else {}
-    ctx.input("case", [shape, dt, cfg["scaling"], cfg["sharding"]])
+    ctx.input("case", [shape, cfg["dtype"], cfg["scaling"], cfg["sharding"]])
     info_s, jt, in_dt, imperfect = W.vr.nibabel_image_to_info(img, options=options)
     info = json.loads(info_s)
     sc = info["scales"][0]
@@ -294,7 +301,7 @@ def H_info(ctx, cfg):
     ng = ("uint8", "uint16", "uint32", "uint64", "float32")
     ctx.sample(dict(shape=shape, stored=dt, scaling=cfg["scaling"], data_type=info["data_type"], imperfect=imperfect))
     ctx.prove(sc["size"] == list(shape[:3]), "size-is-the-volume-shape", detail=str(sc["size"]))
-    ctx.prove(info["num_channels"] == (shape[3] if len(shape) == 4 else 1), "channel-count", detail=str(info["num_channels"]))
+    ctx.prove(info["num_channels"] == (3 if rgb else shape[3] if len(shape) == 4 else 1), "channel-count", detail=str(info["num_channels"]))
     ctx.prove(sc["resolution"] == [1e6, 2e6, 5e5], "resolution-nm", detail=str(sc["resolution"]))
     ctx.prove(info["data_type"] == (stored if stored in ng else "float32") and imperfect == (stored not in ng),
               "data-type-able-to-hold-the-values-else-float32-with-warning-flag", detail=f"{info['data_type']} {imperfect}")
@@ -358,9 +365,15 @@ def replay(cfg, cex):
     shape, dt, scaling, sharding = cex["inputs"]["case"]
     vs = (1.0, 2.0, 0.5)
     with tempfile.TemporaryDirectory() as td:
-        data = (real_np.arange(builtins.int(real_np.prod(shape))) % 100).astype(dt).reshape(shape)
+        rgb = dt == "rgb"
+        if rgb:
+            data = real_np.zeros(shape, dtype=[("R", "u1"), ("G", "u1"), ("B", "u1")])
+            data["G"] = 7
+        else:
+            data = (real_np.arange(builtins.int(real_np.prod(shape))) % 100).astype(dt).reshape(shape)
         img = nibabel.Nifti1Image(data, real_np.diag([vs[0], vs[1], vs[2], 1.0]))
-        img.header.set_data_dtype(dt)
+        if not rgb:
+            img.header.set_data_dtype(dt)
         if scaling:
             img.header.set_slope_inter(scaling[0], scaling[1])
         fn = os.path.join(td, "v.nii")
@@ -371,11 +384,11 @@ def replay(cfg, cex):
         info = json.loads(info_s)
         sc = info["scales"][0]
         ng = ("uint8", "uint16", "uint32", "uint64", "float32")
-        eff = real_np.asanyarray(img.dataobj).dtype.name      # the type of the values the file really holds
+        eff = "uint8" if rgb else real_np.asanyarray(img.dataobj).dtype.name      # the type of the values the file really holds
         probs = []
         if sc["size"] != list(shape[:3]):
             probs.append(f"size {sc['size']}")
-        if info["num_channels"] != (shape[3] if len(shape) == 4 else 1):
+        if info["num_channels"] != (3 if rgb else shape[3] if len(shape) == 4 else 1):
             probs.append(f"num_channels {info['num_channels']}")
         if sc["resolution"] != [1e6, 2e6, 5e5]:
             probs.append(f"resolution {sc['resolution']}")
